@@ -106,25 +106,30 @@ Qed.
     cells whose spans end with the same column end at the same offset *)
 Theorem layout_right_aligned_end_equal offs lm c1 c2 :
   c_align c1 = ARight -> c_align c2 = ARight ->
+  all_blank (c_val c1) = false -> all_blank (c_val c2) = false ->
   (c_col c1 + c_span c1 = c_col c2 + c_span c2)%nat ->
   cell_end offs lm c1 = cell_end offs lm c2.
-Proof. intros H1 H2 E. rewrite !right_end by assumption. rewrite E. reflexivity. Qed.
+Proof. intros H1 H2 B1 B2 E. rewrite !right_end by assumption. rewrite E. reflexivity. Qed.
 
-(** no trailing blanks: a line ends with the text of its last printed cell *)
+(** no trailing blanks: EVERY line with a printed cell ends with the non-blank
+    text of its last printed cell ([tail_text]: the cell's text; for a blank -
+    e.g. empty - text, the non-blank margin followed by that text, whatever the
+    alignment): nothing is written after it *)
 Theorem layout_no_trailing_blank ops t perm l r pre c :
   build ops = Some t -> ops_spans_pos ops -> format t perm = OOut l ->
   row_cells (t_cells t) r = pre ++ [c] ->
-  (c_val c <> [] \/ c_align c = ALeft) ->
-  exists line X, nth_error (l_lines l) r = Some line /\ line = X ++ tail_text c.
+  exists line X, nth_error (l_lines l) r = Some line /\ line = X ++ tail_text c /\
+    (if all_blank (c_val c) then all_blank (c_margin c) = false else True).
 Proof.
-  intros Hb Ho Hf Er Hne.
+  intros Hb Ho Hf Er.
   destruct (build_wf ops t Hb Ho) as [Hsp Hrd].
   pose proof (format_row_chain t perm l Hf Hsp Hrd r) as Hc.
   assert (Hin : In c (row_cells (t_cells t) r)) by (rewrite Er; apply in_elt).
   destruct (row_cells_last _ _ _ Hin) as [Hr Hnil].
-  destruct (row_ends_with_last_cell _ _ _ pre c Hc Er Hne) as [X E].
-  exists (emit_row (l_offs l) (l_lm l) (row_cells (t_cells t) r)), X. split; [|exact E].
-  apply (format_line t perm); assumption.
+  destruct (row_ends_with_last_cell _ _ _ pre c Hc Er) as [X E].
+  exists (emit_row (l_offs l) (l_lm l) (row_cells (t_cells t) r)), X. split; [|split; [exact E|]].
+  - apply (format_line t perm); assumption.
+  - apply tail_text_nonblank. apply row_cells_in in Hin. tauto.
 Qed.
 
 (** a row without printed cells is an empty line *)
